@@ -787,6 +787,9 @@ func (c *VirtualTable) Begin(ctx context.Context) error {
 
 func (c *VirtualTable) Commit(ctx context.Context) error {
 	dbg("COMMIT\n")
+	// The version is created now, not when the connection was opened:
+	// vacuum keeps what was superseded at or after its cutoff.
+	c.Tree.Root.Touch(verifNow(c.S3Options.Endpoint))
 	_, err := c.Tree.Root.Commit(ctx)
 	if err != nil {
 		return fmt.Errorf("commit tree: %w", err)
@@ -964,6 +967,7 @@ func Vacuum(ctx context.Context, tableName string, beforeTime time.Time) error {
 	if err != nil {
 		return fmt.Errorf("s3db commit tombstones: %w", err)
 	}
+	db.Touch(verifNow(table.S3Options.Endpoint))
 	_, err = db.Commit(ctx)
 	if err != nil {
 		return fmt.Errorf("s3db commit tombstones: %w", err)
